@@ -409,8 +409,11 @@ class Problem:
                         break
 
                 if all_same:
-                    # All variables from one VectorVariable - already in order!
-                    self._variables = list(source_vector._variables)
+                    # All variables from one VectorVariable; a reversed or
+                    # re-ordered view is not in natural order, so sort
+                    self._variables = sorted(
+                        source_vector._variables, key=_natural_sort_key
+                    )
                     return self._variables
 
         # General case: collect from all expressions and sort
